@@ -10,14 +10,14 @@ def run(ctx):
                             constants={"AddrIds": ctx.pick('{"a1", "a2"}', '{"a1"}'),
                                        "ValIds": ctx.pick('{"x"}', '{"x", "e"}'), "MaxPos": 1},
                             coverage=True, timeout=ctx.pick(900, 3400))
-        ctx.check_coverage(r, ["AddLog", "AddItem", "Merge", "MergeNil", "Roundtrip", "Contain", "Query", "QueryLog"])
+        ctx.check_coverage(r, ["AddLog", "AddItem", "Merge", "Collect", "MergeNil", "Roundtrip", "Contain", "Query", "QueryLog"])
         ctx.exhaustive = True
         # 2. behaviours: every pair of calls (BFS, depth 2) + random walks
         bs = ctx.behaviours("data", "Gen_Bloom", "Gen_Bloom.cfg",
                             constants={"AddrIds": ctx.pick('{"a1"}', '{"a1", "a2"}'), "ValIds": '{"x", "e"}', "MaxPos": 1},
                             timeout=1200)
         wl = ctx.pick(14, 24)
-        walks = ctx.behaviours("data", "Gen_Bloom", "Gen_Bloom.cfg", constants={"MaxOps": wl, "Depth": wl},
+        walks = ctx.behaviours("data", "Gen_Bloom", "Gen_Bloom.cfg", constants={"MaxOps": wl, "Depth": wl, "MaxPos": 2},
                                simulate="num=%d" % ctx.pick(60, 600), depth=wl + 1, seed=ctx.seed, timeout=1200)
         allb = bs + walks
     else:
@@ -37,8 +37,9 @@ def run(ctx):
         ctx.sample([{k: s[k] for k in ("op", "b", "b2", "a", "vs", "item", "kind", "res")} for s in b][:10])
     return ctx.finish(
         rule="a behaviour = one TLC-generated call sequence (AddLog / AddAddressOfLog / AddIndexedOfLog / Merge / "
-             "Merge(nil) / 5 serialization round trips / Contain / single-item and whole-log queries) on two receipt "
-             "blooms and a block bloom: all of depth 2 by BFS + random walks; distinct by its call sequence; "
+             "Merge(nil) / Collect (block bloom = merge of the blooms of the receipts read back from a real receipt list) "
+             "/ 5 serialization round trips / Contain / single-item and whole-log queries) on two receipt blooms (in "
+             "half of the runs living inside real txresult receipts with event logs of 0..3 indexed fields) and a block bloom: all of depth 2 by BFS + random walks; distinct by its call sequence; "
              "non-trivial if it adds or merges something; addresses and values are seeded random bytes",
         assumptions=["SHA3-256 is trusted; a bit is the symbolic term <item, k> in the spec and is evaluated with the "
                      "real hash by the driver (bit k = big-endian uint16 at hash bytes 2k,2k+1 masked to 2048)",
